@@ -20,7 +20,7 @@ def main():
             res = []
             for p in props:
                 t0 = time.time()
-                r = run(['timeout', '3000', 'python3', os.path.join(HERE, 'check.py'), p, '--tier', 'quick'], cwd=HERE)
+                r = run(['timeout', '3000', 'python3', os.path.join(HERE, 'check.py'), p, '--tier', 'quick'], cwd=HERE, env=dict(os.environ, VERIF_EVIDENCE_DIR=os.path.join(HERE, '.cache', 'seeded-evidence')))
                 viol = [l for l in r.stdout.split('\n') if l.startswith('VIOLATION')]
                 kind = ''
                 if viol:
